@@ -4,7 +4,7 @@ SPEC = {
     "props_file": "C03.v",
     "targets": ["theories/Props/C03.vo", "theories/Term/Check.vo", "theories/Term/Cover.vo"],
     "fail_text": "a reported figure (obj_val, obj_val_dual, r_prim, r_dual, iterations, vector lengths, Almost* status) disagrees with its exact recomputation from the returned vectors and the original data beyond the stated tolerance",
-    "direct_keys": ["lengths_ok", "keep_agree", "iterations_agree", "status_agree"],
+    "direct_keys": ["lengths_ok", "keep_agree", "iterations_agree", "status_agree", "iterations_count_agree", "update_results_agree"],
     "rule": "one evaluation = one solver run (every terminal status), its reported figures recomputed in exact dyadic arithmetic by the proved-sound checker chk_report from the returned vectors and the user's original data; non-trivial = at least 2 variables or constraints; distinct = distinct problem JSON",
     "level": "proof",
     "explanation": "Coq theorems (Props/C03.v): soundness of chk_report (objective and residual figures within relative 2^-30 plus the stated rounding term), cost/residual un-scaling identities, Almost* statuses imply the reduced-tolerance inequalities on the info record, vector lengths after reverse_presolve. Every run is certified inside Coq; the status is tied bit-exactly to the decision model.",
